@@ -370,4 +370,8 @@ def contracts(tier):
     for k in DIR_KINDS:
         cs.append(DirWrapper(k))
     cs.append(DirBasePatterns())
+    # "an unrecognised or constraint-violating string is never read as a different, usable cap": the dispatch in uri.from_string
+    # (prefixes ro./imm., deep-immutable context) is under contract in C16 and re-run here
+    from contracts import C16
+    cs += [c for c in C16.contracts(tier) if type(c).__name__ == "FromString"]
     return cs
